@@ -20,6 +20,7 @@ class Domain:
         self.kind = kind            # "set" | "seq"
         self.kt, self.dom, self.elem, self.et, self.length = kt, dom, elem, et, length
         self.lo = lo
+        self.omap = None            # the ordered map whose keys this sequence domain enumerates
         self.rng = None             # (lo, hi) of a step-1 range: quantifiers over it bind the value itself, not an offset
 
 
@@ -68,6 +69,11 @@ class CompMixin:
         if isinstance(t, TSet):
             et = t.elem
             return st, Domain("set", kt=et, dom=v.zs[0], elem=lambda k: V(et, [k]), et=et)
+        if isinstance(t, TMap) and t.ordered:
+            st, n, at = self.okeys(st, v)
+            d = Domain("seq", length=n, elem=at, et=t.k)
+            d.omap = v
+            return st, d
         if isinstance(t, TMap):
             kt = t.k
             return st, Domain("set", kt=kt, dom=v.zs[0], elem=lambda k: V(kt, [k]), et=kt)
@@ -269,6 +275,12 @@ class CompMixin:
 
     def ev_DictComp(self, e, st):
         st1, d, g = self.comp_body(st, e.generators, e.key)
+        omap = d.omap
+        if omap is not None:
+            # {k: v for k in odict if cond(k)}: evaluated over the key set; the keys are inserted in iteration order, so their
+            # relative ranks are the ones they have in the iterated dict (A-ODICT) - the rank component is taken over as it is
+            kt_ = omap.t.k
+            d = Domain("set", kt=kt_, dom=omap.zs[0], elem=lambda k_: V(kt_, [k_]), et=kt_)
         if d.kind != "set":
             yield self._dictcomp_over_seq(st1, d, g, e)
             return
@@ -279,12 +291,14 @@ class CompMixin:
         k, v = self.as_value(k), self.as_value(v)
         if not (k.t == d.kt and k.zs[0].eq(idx)):
             raise EngineError("dict comprehension with a non-identity key")
-        t = TMap(k.t, v.t)
+        t = TMap(k.t, v.t, ordered=omap is not None)
         st1, keys = self.def_array(st1, idx, z3.And(guard, flt), "dc")
         zs = [keys]
         for c in v.zs:
             st1, va = self.def_array(st1, idx, c, "dc")
             zs.append(va)
+        if omap is not None:
+            zs.append(omap.zs[-1])
         yield st1, V(t, zs)
 
     def _dictcomp_over_seq(self, st1, d, g, e):
